@@ -4,6 +4,8 @@ package stackage
 // invariant Inv (DESIGN §3.11), the list model used as oracle, and content
 // comparison through the public API.
 
+import "sync"
+
 // the eight settable option bits
 const vhOptMask = parens | cfold | nspad | lonce | negidx | fwdidx | ronly | nnest
 
@@ -52,6 +54,10 @@ func vhArbitraryStack(n, slack int, nils bool, optMask cfgFlag, capMode, capSpan
 		verifAssume(c <= n+1+capSpan)
 		cfg.cap = c
 	}
+	if vhPreMutex && nondetChoice(2) == 1 {
+		// locking enabled: every lock taken must be released again (vhInv)
+		cfg.mtx = &sync.Mutex{}
+	}
 	st := make(stack, 1+n, 1+n+slack)
 	st[0] = cfg
 	model := make([]any, n)
@@ -89,7 +95,17 @@ func vhInv(s Stack, cfg *nodeConfig, id string) {
 		verifAssert(len(st) <= cfg.cap, id+"/len<=cap")
 	}
 	verifAssert(s.IsInit(), id+"/IsInit")
+	if cfg.mtx != nil {
+		free := cfg.mtx.TryLock()
+		verifAssert(free, id+"/mutex-released")
+		if free {
+			cfg.mtx.Unlock()
+		}
+	}
 }
+
+// vhPreMutex: symbolic pre-states come with and without a mutex.
+var vhPreMutex = true
 
 // vhSame compares two element values by identity of the tokens used in
 // harnesses (strings, ints, nil).
@@ -104,6 +120,23 @@ func vhSame(a, b any) bool {
 	case int:
 		y, ok := b.(int)
 		return ok && x == y
+	case *Stack:
+		y, ok := b.(*Stack)
+		return ok && x == y
+	case *Condition:
+		y, ok := b.(*Condition)
+		return ok && x == y
+	case *vhAliasStack:
+		y, ok := b.(*vhAliasStack)
+		return ok && x == y
+	}
+	if sa, ok := vhStackOf(a); ok {
+		sb, ok2 := vhStackOf(b)
+		return ok2 && sa.stack == sb.stack
+	}
+	if ca, ok := vhCondOf(a); ok {
+		cb, ok2 := vhCondOf(b)
+		return ok2 && ca.condition == cb.condition
 	}
 	return false
 }
